@@ -4,9 +4,15 @@ Correspondence with M-Sort (lean/DefconModel/NameSort.lean) on ORDERED results +
 (result multiset == input multiset, two calls agree, input list / descriptors / font unchanged,
 no notification posted, no exception) evaluated on font.unicodeData.sortGlyphNames itself.
 
-A case = one font (glyph names with their unicode lists) + a list of sort calls on it.  The
-font-dependent look-ups the sort methods use are tabulated from the REAL UnicodeData for the names of
-the case and handed to the Lean model as its `Env` parameter (first driver line of every case).
+A case = one font (glyph names with their unicode lists) + a list of sort calls on it.
+
+Round 3: the font-dependent look-ups the sort methods use are no longer tabulated from the real UnicodeData.  The
+first driver line of a case is the WORLD - glyph names and code points as the case declares them, the UnicodeData dict
+in its own order, and the facts of the Unicode database (fontTools.unicodedata, not defcon.tools.unicodeTools) about
+the code points that occur - and the Lean model derives every look-up from it (lean/DefconModel/NameLookups.lean:
+envOf, sortFont) with the open/close tables regenerated from the code.  Beside the sort calls a case asks the real
+UnicodeData and the model about every name of the font and a set of probe names (`look`), allocates forced unicodes
+(`forced`), reads them back (`byforced`) and compares the dict and the forced tables (`state`).
 """
 import ast
 import copy
@@ -31,7 +37,14 @@ RULE = ("one font (3-30 glyphs drawn from a structured pool: letters, accented l
         "of 0-16 names drawn from the font and from outside it, with duplicates, and 0-3 descriptors over all 10 public "
         "types (+ the 5 private ones in a tenth of the calls), ascending/descending/omitted, pseudo-unicodes "
         "on/off/omitted; non-trivial = a call with >= 2 distinct names whose result order differs from the input "
-        "order; distinct = distinct case dicts")
+        "order; distinct = distinct case dicts.  Round 3: every case also asks all 15 public look-ups (unicode, "
+        "pseudo-unicode, category/script/block and close/open relative and decomposition base with and without "
+        "pseudo-unicodes, `in font`) about EVERY name of the font, 3-8 probe names (names outside the font, a.suffix, "
+        "suffix chains, ligatures, ligatures with a suffix, ligatures whose parts are suffixed, names behind a leading "
+        "'.' or '_', odd separators, the empty name) and up to 6 outside names of its sort calls, 6 names per line, "
+        "between the sorts or after them (always after them in a font sorted while unread; first thing on a re-opened "
+        "font otherwise in 7 of 10); three cases in ten allocate 1-4 forced unicodes between the sorts and read 0-2 "
+        "back; half the cases end by comparing the UnicodeData dict and both forced tables")
 ASSUMPTIONS = [
     "sort descriptors use the built-in types only (type 'custom' runs a user function: out of scope); private types "
     "(_generalType, _whitespaceCategory, _containerPartners, _manualGroups, _notdef) are compared with the model but "
@@ -48,9 +61,22 @@ ASSUMPTIONS = [
     "descriptor lists are shorter than CPython's recursion limit (every descriptor nests the block list one level "
     "deeper; about 990 descriptors raise RecursionError); generated lists have 0-3",
     "names are str objects; the lists are Python lists",
+    "round 3: the cmap handed to the model is the UnicodeData dict of the real font read ONCE, before the first op (its "
+    "order depends on the history of the font, which is C09's matter); glyph names and their code points are the ones "
+    "the case declares, not read back",
+    "round 3: `\" \" not in decomposition` is modelled as `fewer than two fields` (asserted for every tabulated code "
+    "point); the recursion of unicodeTools.decompositionBase gets fuel 12 (the longest chain of Unicode has 3 links: U+1F82) and "
+    "that of _findAvailablePUACode fuel 900 (CPython's recursion limit ends it near 990 allocated names)",
+    "round 3: the call table Gen/SortCalls.lean follows `self.<name>` references inside class UnicodeData only (the "
+    "extractor fails closed on getattr/setattr/aliasing of self); what Font.__getitem__ / __contains__ do when a sort "
+    "asks them is judged by the oracle on the real objects (font, cmap and forced tables unchanged)",
 ]
 TRUSTED = [
-    "look-up parameters of the model are tabulated per case from the real UnicodeData (harness/props/c20.py:tabulate)",
+    "round 3: the model computes the look-ups itself; what is tabulated per case is the world: declared glyph names and "
+    "code points, the UnicodeData dict of the real font, and category/script/block/decomposition of the code points that "
+    "occur from fontTools.unicodedata (harness/props/c20.py:world_line, db_facts)",
+    "lean/DefconModel/Gen/OpenClose.lean (pair text from the AST of unicodeTools.py + the dicts of the imported module) and "
+    "Gen/SortCalls.lean (self-references of every method of UnicodeData, from the AST) are regenerated on every run",
     "lean/DefconModel/Gen/SortTables.lean is regenerated from the imported defcon modules and the source AST on "
     "every run (constants, type->method dispatch, canned descriptor lists)",
 ]
